@@ -271,12 +271,29 @@ def special_scenario(kind):
         main = ("import box, Box, bump from o\nprint box.v\nprint bump()\nprint box.v\nb2 = Box(5)\nprint b2.v\nuse = fn(b: Box) -> int {\n\treturn b.v\n}\nprint use(box)\nimport o\nprint (o.box).v\nprint \"@end\"\n")
         exp = ["o init", "1", "2", "2", "5", "2", "2", "@end"]
         files = {"main.ms": main, "o.ms": lib}
+    elif kind.startswith("back-edge:"):
+        # a module imports, at the END of its top level, a module that imports names back from it (the repository's
+        # `circular_import_workaround`): the import that arrives while the first module is still initialising finds the module
+        # already entered - each top level still runs exactly once and both see one instance
+        _, back_form, entry_first, extra = kind.split(":")
+        registry = ("print \"registry:init\"\ncount = 0\nexport add: fn(str) -> int = fn(who: str) -> int {\n\tmodify count = count + 1\n\tprint \"registry: +\" + who\n\treturn count\n}\n"
+                    "export total: fn() -> int = fn() -> int {\n\treturn count\n}\nimport plugin\nprint \"registry:ready\"\n")
+        use = "import add from registry\nadd(\"plugin\")\n" if back_form == "names" else "import registry\nregistry.add(\"plugin\")\n"
+        helper = "warm = fn() -> int {\n\treturn 1\n}\nwarm()\n" if extra == "after-a-call" else ""
+        plugin = "print \"plugin:init\"\n" + helper + use + "export name: fn() -> str = fn() -> str {\n\treturn \"plugin\"\n}\nprint \"plugin:ready\"\n"
+        if entry_first == "registry":
+            main = "print \"main:start\"\nimport registry\nprint \"total \" + registry.total()\nimport plugin\nprint plugin.name()\nprint \"total \" + registry.total()\nprint \"@end\"\n"
+            exp = ["main:start", "registry:init", "plugin:init", "registry: +plugin", "plugin:ready", "registry:ready", "total 1", "plugin", "total 1", "@end"]
+        else:
+            main = "print \"main:start\"\nimport registry\nimport add from registry\nprint \"total \" + registry.total()\nadd(\"main\")\nimport plugin\nprint plugin.name()\nprint \"total \" + registry.total()\nprint \"@end\"\n"
+            exp = ["main:start", "registry:init", "plugin:init", "registry: +plugin", "plugin:ready", "registry:ready", "total 1", "registry: +main", "plugin", "total 2", "@end"]
+        files = {"main.ms": main, "registry.ms": registry, "plugin.ms": plugin}
     else:
         raise ValueError(kind)
     return make_scenario(files, exp)
 
 
-SPECIALS = ["self-in-imported-class:importer-top-level", "self-in-imported-class:entry-module", "self-in-imported-class:from-function",
+SPECIALS = ["back-edge:%s:%s:%s" % (b, e, x) for b in ("names", "module") for e in ("registry", "both-forms") for x in ("plain", "after-a-call")] + ["self-in-imported-class:importer-top-level", "self-in-imported-class:entry-module", "self-in-imported-class:from-function",
             "names-that-begin-with-keywords", "exported-object-by-name"]
 NEGATIVES = ["private-via-module", "private-via-names", "write-module-member", "write-through-module-alias", "opassign-through-module-alias", "wrong-type-use", "exported-twice"]
 
